@@ -70,6 +70,9 @@ def apply(m, op, ft, limit, doc=0):
         if op == 'canonicalize':
             r = m.canonicalize(fix_tautomers=bool(ft), logging=True)
             step['rules'] = sorted({x[2] for x in r if x[1] >= 0})
+        elif op == 'canonicalize-keep-kekule':
+            r = m.canonicalize(fix_tautomers=bool(ft), keep_kekule=True, logging=True)
+            step['rules'] = sorted({x[2] for x in r if x[1] >= 0})
         elif op == 'standardize':
             r = m.standardize(fix_tautomers=bool(ft), logging=True)
             step['rules'] = sorted({x[2] for x in r if x[1] >= 0})
@@ -192,6 +195,8 @@ def run(ck):
         ft = k % 2
         add('hist', s, [('canonicalize', ft), ('canonicalize', ft)], 1 if (not ft or fixed) else 0)
         add('hist', s, [('standardize', ft), ('standardize', ft), ('standardize_charges', 0), ('standardize_charges', 0)], 1 if (not ft or fixed) else 0)
+        if k % 4 == 3 or k >= n:
+            add('hist', s, [('canonicalize-keep-kekule', ft), ('canonicalize-keep-kekule', ft), ('thiele', 0)], 1 if (not ft or fixed) else 0)
         if k % 3 == 0 or s in HYDRO:
             add('hist', s, [('explicify', 0), ('implicify', 0), ('explicify', 0), ('implicify', 0), ('implicify', 0), ('explicify', 0), ('explicify', 0)], 1, prep=('kekule',))
             add('hist', s, [('neutralize', 0), ('neutralize', 0), ('fix_resonance', 0), ('fix_resonance', 0)], 1)
